@@ -71,7 +71,7 @@ class ValueProfile:
         if self.use_reg and world == "W-POSC" and rng.random() < 0.6:
             for n in range(rng.choice([1, 1, 2])):
                 q, us, cs = rng.choice(basis)
-                dyn_units.append({"sym": "simU%d" % n, "name": "sim unit %d" % n, "qt": q, "k": rng.choice([2.0, 10.0, 0.25, 1000.0])})
+                dyn_units.append({"sym": "simU%d" % n, "name": "sim unit %d" % n, "qt": q, "k": rng.choice([2.0, 10.0, 0.25, 1000.0]), "callable": rng.random() < 0.6})
         return {
             "prop": self.prop,
             "tier": tier,
@@ -85,6 +85,7 @@ class ValueProfile:
             "family_weights": fam,
             "intr_rate": intr_rate,
             "intr_mean": rng.choice([8, 25, 60, 120]),
+            "peer_rate": rng.choice([0, 0.1, 0.25]) if dyn_units else 0,
             "restart_at": restart_at,
             "flt_kinds": self.flt_kinds,
             "eager_full": rng.random() < 0.6,
@@ -232,7 +233,9 @@ class C05(ValueProfile):
 
 class C11(ValueProfile):
     prop = "C11"
-    client_bias = {"curator": 4.0, "saboteur": 1.5, "inspector": 0.4, "validator": 0.4}
+    use_reg = True
+    reg_forms = ["unit_new"]
+    client_bias = {"curator": 4.0, "saboteur": 1.5, "inspector": 0.4, "validator": 0.4, "registrar": 0.2}
     family_bias = {"curve": 1.5, "fixed": 2.0}
     flt_kinds = ["badarg", "badarg", "badarg", "convert", "pair"]
 
